@@ -464,6 +464,15 @@ def gen_C01(rng, tier):
             h.ops.append("%s=u@0 %d" % (h.newe(), rng.choice([0, 1, q - 1, q, q + 1, 2 ** 64 - 1, rng.randrange(2 ** 64)]) % 2 ** 64))
             h.ops.append("%s=s@0 %d" % (h.newe(), rng.choice([0, -1, 1, -(2 ** 63), 2 ** 63 - 1, -rng.randrange(2 ** 63), rng.randrange(2 ** 63)])))
             h.ops.append("setu %s %d" % (rng.choice(regs), rng.randrange(2 ** 64)))
+            # the generic constructor Element(interface{}) and the slice constructors behind it
+            h.ops.append("%s=anyu@0 %d" % (h.newe(), rng.choice([0, q - 1, q, 2 ** 64 - 1, rng.randrange(2 ** 64)]) % 2 ** 64))
+            h.ops.append("%s=anyi@0 %d" % (h.newe(), rng.choice([0, -1, -(2 ** 63), 2 ** 63 - 1, -rng.randrange(2 ** 63)])))
+            nsl = rng.choice([0, 1, 2, 3, 5, 9])
+            h.ops.append("%s=anysl@0 %s" % (h.newe(), ".".join(str(rng.choice([0, 1, 2, q, 2 ** 64 - 1, rng.randrange(2 ** 64)]) % 2 ** 64) for _ in range(nsl)) or "-"))
+            h.ops.append("%s=anyisl@0 %s" % (h.newe(), ".".join(str(rng.choice([0, -1, 1, -(2 ** 63), 2 ** 63 - 1, rng.randrange(-50, 50)])) for _ in range(nsl)) or "-"))
+            r = h.newe(); h.ops.append("%s=anysl@0 %s" % (r, ".".join(str(rng.randrange(0, 7)) for _ in range(rng.randrange(1, 6)))))
+            if desc[0] == "E":
+                h.ops.append("%s=plus %s %s" % (h.newe(), r, regs[0]))
             L.append(h.line())
     return L
 
@@ -1361,9 +1370,31 @@ def _rand_string(rng, desc, maxlen=12):
     return "".join(chr(rng.randrange(32, 127)) for _ in range(rng.randrange(0, maxlen)))
 
 
+NAME_POOL = ["X", "Y", "t", "x", "y", " x ", "", " ", "  \t", "\n", "0", "1", " 1 ", " 0", "ab", "A1", "aB", "Ab ", "+", "-", "^", "(",
+             "x y", "\tT\r\n", "\x0bv\x0c", "Z9", "a", "A", "alpha", "10"]
+
+
+def gen_setvar(rng, n):
+    L = []
+    for _ in range(n):
+        kind = rng.choice(["u", "b", "bin"])
+        k = rng.randrange(1, 5)
+        if kind == "b":
+            items = []
+            for _ in range(k):
+                a = rng.choice(NAME_POOL)
+                b = rng.choice(NAME_POOL + [a.upper(), a.lower(), " " + a])
+                items.append(hexs(a) + "," + hexs(b))
+        else:
+            items = [hexs(rng.choice(NAME_POOL)) for _ in range(k)]
+        L.append("setvar %s %s" % (kind, " ".join(items)))
+    return L
+
+
 def gen_C17(rng, tier):
     L = []
     big = tier == "thorough"
+    L += gen_setvar(rng, 400 if big else 80)
     # (a) invalid requests and sticky chains, snapshot after every op
     for _ in range(900 if big else 170):
         desc = pick_field(rng, small=0.7, mid=0.25)
@@ -1388,6 +1419,15 @@ def gen_C17(rng, tier):
             r = h.newe(); h.ops.append("%s=copy %s" % (r, good_e[0])); h.ops.append("add %s %s" % (r, fo)); bad_e.append(r)
         if rng.random() < 0.3:
             r = h.newe(); h.ops.append("%s=copy %s" % (r, good_e[0])); h.ops.append("prod %s %s %s" % (r, fo, good_e[1])); bad_e.append(r)
+        # the generic constructor with unsupported dynamic types (Input errors, no object), strings and slices
+        for _ in range(rng.randrange(0, 3)):
+            k = rng.choice(["anyf64", "anyi32", "anyu8", "anynil", "anyelem", "anysl", "anyisl", "anystr", "anystr"])
+            arg = "0"
+            if k in ("anysl", "anyisl"):
+                arg = ".".join(str(rng.randrange(0, 9)) for _ in range(rng.randrange(0, 4))) or "-"
+            if k == "anystr":
+                arg = hexs(_rand_string(rng, desc))
+            h.ops.append("%s=%s@0 %s" % (h.newe(), k, arg))
         pool = good_e + bad_e + [z]
         for _ in range(rng.randrange(3, 14)):
             a, b = rng.choice(pool), rng.choice(pool)
